@@ -475,6 +475,8 @@ func kstOf(rs rig.RawState) kst {
 func c04WireSlice(run *evid.Run, cfg Cfg, l *learner, report func(string, any)) {
 	r := cfg.Rand("c04-wire")
 	histories := cfg.N(12, 150)
+	WireRigRace = true
+	defer func() { WireRigRace = false }()
 	w, err := NewWireRig(cfg, "c04-wire", c04Keys*histories, nil)
 	if err != nil {
 		run.Inconclusive("cannot start daemon for the wire slice: " + err.Error())
@@ -495,6 +497,7 @@ func c04WireSlice(run *evid.Run, cfg Cfg, l *learner, report func(string, any)) 
 	}
 	alive := w.D.Alive()
 	w.D.Stop()
+	daemonRaceReports(run, w.D, "concurrent signing requests over shared keys")
 	if !alive {
 		run.Inconclusive("daemon died during the wire slice: " + w.D.LogTail(400))
 		return
